@@ -39,6 +39,7 @@ func (s *muxerServer) handle(w http.ResponseWriter, r *http.Request) {
 	s.mutex.RLock()
 	handler, ok := s.pathHandlers[path]
 	s.mutex.RUnlock()
+	verifYield("mux.serve.afterLookup")
 
 	if ok {
 		handler(w, r)
